@@ -106,6 +106,12 @@ VisitOrder(q, h) ==
 
 Init == /\ occs \in Lists /\ hints \in BOOLEAN
         /\ todo = <<>> /\ slot = None /\ phase = "collect"
+\* incremental construction of a scenario (used with `tlc -simulate`, where enumerating Lists is too costly)
+InitBuild == /\ occs = <<>> /\ hints \in BOOLEAN /\ todo = <<>> /\ slot = None /\ phase = "build"
+AddOcc == /\ phase = "build" /\ Len(occs) < MaxOcc
+          /\ \E o \in Occ : WellFormed(Append(occs, o)) /\ occs' = Append(occs, o)
+          /\ UNCHANGED <<hints, todo, slot, phase>>
+EndBuild == /\ phase = "build" /\ Len(occs) = MaxOcc /\ phase' = "collect" /\ UNCHANGED <<occs, hints, todo, slot>>
 Collect == /\ phase = "collect"
            /\ todo' = VisitOrder(occs, hints) /\ phase' = "insert"
            /\ UNCHANGED <<occs, hints, slot>>
@@ -117,7 +123,7 @@ Insert == /\ phase = "insert" /\ todo # <<>>
           /\ UNCHANGED <<occs, hints, phase>>
 Finish == /\ phase = "insert" /\ todo = <<>> /\ phase' = "done"
           /\ UNCHANGED <<occs, hints, todo, slot>>
-Next == Collect \/ Insert \/ Finish
+Next == AddOcc \/ EndBuild \/ Collect \/ Insert \/ Finish
 Spec == Init /\ [][Next]_vars
 
 \* the insertion loop leaves the CSS winner in the slot
